@@ -93,32 +93,34 @@ def spanW (p : Char → Bool) : List Char → List Char × List Char
   | [] => ([], [])
   | c :: cs => if p c then let (a, b) := spanW p cs; (c :: a, b) else ([], c :: cs)
 
+/-- one `NextWhile p` token: consume the longest run satisfying `p`, emit it with kind `k`, continue with `cont`;
+at end of input an unguarded predicate (`safe = false`) loops forever -/
+def lexRun (safe : Bool) (p : Char → Bool) (k : TK) (inp : List Char) (acc : List Tok)
+    (cont : List Char → List Tok → LexOut) : LexOut :=
+  if (spanW p inp).2.isEmpty && !safe then .hang acc else cont (spanW p inp).2 (acc ++ [⟨k, (spanW p inp).1⟩])
+
 /-- the whole token stream; `es`/`em` = expectSymbol/expectMetadata; fuel bounds the recursion (each
 step consumes at least one rune or ends) -/
 def lexAll (safe : Bool) : Nat → Bool → Bool → List Char → List Tok → LexOut
   | 0, _, _, _, acc => .hang acc
-  | f+1, es, em, inp, acc =>
-    let inp := (spanW isSpace inp).2
-    -- run a `NextWhile p` token; at end of input an unguarded predicate loops forever
-    let run (p : Char → Bool) (k : TK) (es' : Bool) : LexOut :=
-      let (a, b) := spanW p inp
-      if b.isEmpty && !safe then .hang acc else lexAll safe f es' em b (acc ++ [⟨k, a⟩])
-    match inp with
+  | f+1, es, em, inp0, acc =>
+    match (spanW isSpace inp0).2 with
     | [] => if es then .err acc else .ok acc
     | c :: cs =>
-      if em && isMetaRune c then run isMetaRune .METADATA es
+      if em && isMetaRune c then lexRun safe isMetaRune .METADATA (c :: cs) acc (fun b a => lexAll safe f es em b a)
       else if es then
-        if isSymbolRune c then run isSymbolRune .SYMBOL false else .err acc
+        if isSymbolRune c then lexRun safe isSymbolRune .SYMBOL (c :: cs) acc (fun b a => lexAll safe f false em b a)
+        else .err acc
       else if c = commentStart then
-        let (_, b) := spanW (· ≠ commentStop) inp
-        if b.isEmpty && !safe then .hang acc else lexAll safe f es em b acc
+        if (spanW (· ≠ commentStop) (c :: cs)).2.isEmpty && !safe then .hang acc
+        else lexAll safe f es em (spanW (· ≠ commentStop) (c :: cs)).2 acc
       else match singleTok c with
         | some (k, setSym, setMeta) =>
           lexAll safe f (setSym.getD es) (setMeta.getD em) cs (acc ++ [⟨k, [c]⟩])
         | none =>
-          if isDigitC c then run isDigitC .NUMBER es
-          else if isSymbolRune c then run isSymbolRune .SYMBOL es
-          else .ok acc      -- silent stop on a rune nobody handles (unreachable when `LexTablesOK`)
+          if isDigitC c then lexRun safe isDigitC .NUMBER (c :: cs) acc (fun b a => lexAll safe f es em b a)
+          else if isSymbolRune c then lexRun safe isSymbolRune .SYMBOL (c :: cs) acc (fun b a => lexAll safe f es em b a)
+          else .ok acc      -- silent stop on a rune nobody handles (unreachable: `unhandled_is_symbol`)
 
 def lexChars (s : List Char) : LexOut := lexAll eofSafe (s.length + 1) false false s []
 
